@@ -39,7 +39,7 @@ ASSUMPTIONS = [
     "Only one handle per file is open at a time (documented: a dataset file cannot be accessed by two handles simultaneously).",
     "Temporary files live under /verif/scratch/c64_<pid>_<hash>/ and are removed after the case.",
 ]
-BUDGET = {"quick": {"examples": 360}, "thorough": {"examples": 12000, "shards": 16}}
+BUDGET = {"quick": {"examples": 240}, "thorough": {"examples": 12000, "shards": 16}}
 SHRINK_LISTS = ("steps", "items", "init")
 
 SCRATCH = "/verif/scratch"
